@@ -225,7 +225,29 @@ fn judge(plan: &Plan, _tier: Tier) -> Judged {
 				Ok(d) => d,
 				Err(_) => continue,
 			};
-			let r = recover_check(&plan.opts, &dir, &model, lo, hi.max(lo), &plan.keys, false, plan.case_seed ^ n as u64, false, false);
+			// F5 narrowed: the record of a failed commit sits in log segment S. The unchanged
+			// code retires S once the memtables that can hold data logged in S - the one created
+			// for S and, for a commit that straddled a rotation, the one for S+1 - are flushed.
+			// After a completed flush of a memtable with WAL number > S (flushes go oldest
+			// first) a process-crash image must not bring the failed commit back any more.
+			let mut m2 = model.clone();
+			if cm == CrashModel::Process {
+				let flushed_upto: Option<u64> = ops[..n.min(ops.len())]
+					.iter()
+					.filter_map(|o| match o {
+						Op::Marker { text } => text.strip_prefix("flush done wal=").and_then(|x| x.parse::<u64>().ok()),
+						_ => None,
+					})
+					.max();
+				if let Some(f) = flushed_upto {
+					for c in m2.commits.iter_mut() {
+						if c.status == Status::Failed && c.logged_wal.map(|s| f > s).unwrap_or(false) {
+							c.ghost_ok = false;
+						}
+					}
+				}
+			}
+			let r = recover_check(&plan.opts, &dir, &m2, lo, hi.max(lo), &plan.keys, false, plan.case_seed ^ n as u64, false, false);
 			let _ = std::fs::remove_dir_all(&dir);
 			j.evaluations += 1;
 			if let Some(v) = r.violation {
